@@ -103,6 +103,119 @@ Lemma h_rename_same : forall o h, h_rename o o h = h.
 Proof. intros. unfold h_rename. now rewrite String.eqb_refl. Qed.
 
 (* ------------------------------------------------------------------------------------------- *)
+(* strings: the name -> path rules agree on every name (since fe0ec16)                           *)
+(* ------------------------------------------------------------------------------------------- *)
+
+Lemma app_nil_r_s : forall s : string, s ++ "" = s.
+Proof. induction s; simpl; congruence. Qed.
+
+Lemma app_assoc_s : forall a b c : string, (a ++ b) ++ c = a ++ (b ++ c).
+Proof. induction a; simpl; intros; congruence. Qed.
+
+Lemma length_app_s : forall a b, String.length (a ++ b) = (String.length a + String.length b)%nat.
+Proof. induction a; simpl; intros; auto. Qed.
+
+(* filepath.Ext returns a suffix of its argument *)
+Lemma ext_go_suf : forall s pre cur,
+  match cur with Some c => exists y, pre = y ++ c | None => True end ->
+  exists x, pre ++ s = x ++ ext_go s cur.
+Proof.
+  induction s as [|a r IH]; intros pre cur H.
+  - simpl. destruct cur as [c|].
+    + destruct H as [y ->]. exists y. now rewrite !app_nil_r_s.
+    + exists pre. reflexivity.
+  - replace (pre ++ String a r) with ((pre ++ String a "") ++ r) by (rewrite app_assoc_s; reflexivity).
+    cbn [ext_go]. destruct (Ascii.eqb a ch_slash) eqn:E1.
+    + apply IH. exact I.
+    + destruct (Ascii.eqb a ch_dot) eqn:E2.
+      * apply IH. apply Ascii.eqb_eq in E2. subst a. exists pre. reflexivity.
+      * apply IH. destruct cur as [c|]; [|exact I]. destruct H as [y ->]. exists y. now rewrite app_assoc_s.
+Qed.
+
+Lemma ext_suffix : forall f, exists x, f = x ++ ext f.
+Proof. intros. destruct (ext_go_suf f "" None I) as [x H]. exists x. exact H. Qed.
+
+Lemma ext_go_app_dot0 : forall x y cur, ext_go (x ++ String ch_dot y) cur = ext_go y (Some ".").
+Proof.
+  induction x as [|c x IH]; intros y cur.
+  - reflexivity.
+  - change ((String c x ++ String ch_dot y)) with (String c (x ++ String ch_dot y)).
+    cbn [ext_go]. destruct (Ascii.eqb c ch_slash); [apply IH|]. destruct (Ascii.eqb c ch_dot); apply IH.
+Qed.
+
+Lemma ext_yaml : forall x, ext (x ++ ".yaml") = ".yaml".
+Proof. intros. unfold ext. change ".yaml" with (String ch_dot "yaml"). rewrite ext_go_app_dot0. reflexivity. Qed.
+
+Lemma substring_skip : forall x y, substring (String.length x) (String.length y) (x ++ y) = y.
+Proof.
+  induction x as [|c x IH]; intros y; simpl.
+  - induction y as [|d y IHy]; simpl; [reflexivity|]. now rewrite IHy.
+  - apply IH.
+Qed.
+
+Lemma substring_take : forall x y, substring 0 (String.length x) (x ++ y) = x.
+Proof.
+  induction x as [|c x IH]; intros y; simpl.
+  - destruct y; reflexivity.
+  - now rewrite IH.
+Qed.
+
+Lemma has_suffix_app : forall x suf, has_suffix suf (x ++ suf) = true.
+Proof.
+  intros. unfold has_suffix. rewrite length_app_s.
+  replace (String.length x + String.length suf - String.length suf)%nat with (String.length x) by lia.
+  rewrite substring_skip. rewrite String.eqb_refl. rewrite andb_true_r. apply Nat.leb_le. lia.
+Qed.
+
+Lemma trim_suffix_app : forall x suf, trim_suffix (x ++ suf) suf = x.
+Proof.
+  intros. unfold trim_suffix. rewrite has_suffix_app. rewrite length_app_s.
+  replace (String.length x + String.length suf - String.length suf)%nat with (String.length x) by lia.
+  apply substring_take.
+Qed.
+
+(* AddYamlExtension always yields <something>.yaml and keeps the first character (unless that is a dot) *)
+Lemma add_yaml_shape : forall f, exists x, add_yaml_ext f = x ++ ".yaml" /\
+  (forall c r, f = String c r -> c <> ch_dot -> exists r', x = String c r').
+Proof.
+  intros f. unfold add_yaml_ext. destruct (ext_suffix f) as [x0 E].
+  destruct (String.eqb (ext f) ".yaml") eqn:E1.
+  - apply String.eqb_eq in E1. rewrite E1 in E. exists x0. split; auto.
+    intros c r F N. subst f. destruct x0 as [|d x0].
+    + simpl in F. injection F as Fc _. exfalso. apply N. unfold ch_dot. congruence.
+    + injection F as -> _. eauto.
+  - destruct (String.eqb (ext f) ".yml") eqn:E2.
+    + apply String.eqb_eq in E2. rewrite E2 in *.
+      assert (T : trim_suffix f ".yml" = x0) by (rewrite E; apply trim_suffix_app). rewrite T. exists x0. split; auto.
+      intros c r F N. rewrite F in E. destruct x0 as [|d x0].
+      * simpl in E. injection E as Fc _. exfalso. apply N. unfold ch_dot. congruence.
+      * injection E as <- _. eauto.
+    + exists f. split; auto. intros c r -> _. eauto.
+Qed.
+
+Lemma craft_yaml : forall x, craft (x ++ ".yaml") = x ++ ".yaml".
+Proof. intros. unfold craft. now rewrite has_suffix_app. Qed.
+
+Lemma add_yaml_idem : forall x, add_yaml_ext (x ++ ".yaml") = x ++ ".yaml".
+Proof. intros. unfold add_yaml_ext. rewrite ext_yaml. reflexivity. Qed.
+
+(* for every id that is a single path element: the file of the definition is also the Location the loader gives
+   the DAG, AddYamlExtension leaves it alone, and it is absolute when the DAGs directory is *)
+Lemma loc_facts : forall dir n, has_slash n = false ->
+  craft (file_loc dir n) = file_loc dir n /\ add_yaml_ext (file_loc dir n) = file_loc dir n /\
+  (is_abs dir = true -> is_abs (file_loc dir n) = true).
+Proof.
+  intros dir n H. unfold file_loc. rewrite H.
+  destruct (add_yaml_shape (dir ++ "/" ++ n)) as (x & E & A). rewrite E.
+  split; [apply craft_yaml|]. split; [apply add_yaml_idem|].
+  intros AB. destruct dir as [|c d]; [discriminate|]. simpl in AB. apply Ascii.eqb_eq in AB. subst c.
+  destruct (A ch_slash (d ++ "/" ++ n) eq_refl) as [r' ->]; [discriminate|]. reflexivity.
+Qed.
+
+Lemma dag_loc_is_loc : forall dir n, has_slash n = false -> dag_loc dir n = file_loc dir n.
+Proof. intros. unfold dag_loc. now apply loc_facts. Qed.
+
+(* ------------------------------------------------------------------------------------------- *)
 
 Section Proofs.
   Variable valid : bytes -> bool.
@@ -380,7 +493,7 @@ Section Proofs.
   Proof.
     intros w old new N T. unfold Model.step_res, Model.step_w. simpl.
     rewrite (store_rename_taken _ _ _ N T).
-    destruct (find_dag valid dir (w_defs w) old) as [[] ol]; simpl; repeat split; auto; discriminate.
+    destruct (load_at valid (w_defs w) (loc old)) as [[] ol]; simpl; repeat split; auto; discriminate.
   Qed.
 
   (* Whatever a rename does (client level or store level, successful or not), definitions other than the
@@ -395,9 +508,9 @@ Section Proofs.
     assert (O : e = ROk -> fs_get q d = fs_get q (w_defs w)).
     { intros ->. destruct (store_rename_get _ _ _ _ S) as (b & _ & _ & _ & _ & O). auto. }
     split.
-    - destruct (find_dag valid dir (w_defs w) old) as [[] ol]; simpl; auto.
+    - destruct (load_at valid (w_defs w) (loc old)) as [[] ol]; simpl; auto.
       destruct e; simpl; auto.
-      destruct (find_dag valid dir d new) as [[] nl]; simpl; auto.
+      destruct (load_at valid d (loc new)) as [[] nl]; simpl; auto.
       destruct (hist_rename (w_hist w) ol nl); simpl; auto.
     - destruct e; simpl; auto.
   Qed.
@@ -405,43 +518,38 @@ Section Proofs.
   Theorem rename_flags : forall w old new, w_flags (step_w w (ORename old new)) = w_flags w.
   Proof.
     intros. unfold Model.step_w. simpl.
-    destruct (find_dag valid dir (w_defs w) old) as [[] ol]; simpl; auto.
+    destruct (load_at valid (w_defs w) (loc old)) as [[] ol]; simpl; auto.
     destruct (store_rename dir (w_defs w) old new) as [[] d]; simpl; auto.
-    destruct (find_dag valid dir d new) as [[] nl]; simpl; auto.
+    destruct (load_at valid d (loc new)) as [[] nl]; simpl; auto.
     destruct (hist_rename (w_hist w) ol nl); simpl; auto.
   Qed.
 
-  Lemma name_ok_parts : forall n, name_okb dir n = true ->
-    has_slash n = false /\ (exists r, cands (dir ++ "/" ++ n) = loc n :: r) /\
-    craft (loc n) = loc n /\ add_yaml_ext (loc n) = loc n /\ is_abs (loc n) = true.
+  Hypothesis dir_abs : is_abs dir = true.   (* the DAGs directory is an absolute path (config) *)
+
+  Lemma load_at_present : forall f n b, has_slash n = false -> fs_get (loc n) f = Some b ->
+    load_at valid f (loc n) = (if valid b then ROk else RInvalid, loc n).
   Proof.
-    unfold name_okb. intros n H.
-    repeat (apply andb_true_iff in H; destruct H as [H ?]).
-    apply negb_true_iff in H. repeat split; auto.
-    - destruct (cands (dir ++ "/" ++ n)) as [|c r]; [discriminate|].
-      apply String.eqb_eq in H3. subst. now exists r.
-    - now apply String.eqb_eq.
-    - now apply String.eqb_eq.
+    intros f n b S G. destruct (loc_facts dir n S) as (C & _ & _).
+    unfold load_at. rewrite C, G. now destruct (valid b).
   Qed.
 
-  Lemma find_dag_present : forall f n b, name_okb dir n = true -> fs_get (loc n) f = Some b ->
-    find_dag valid dir f n = (if valid b then ROk else RInvalid, loc n).
+  Lemma load_at_absent : forall f n, has_slash n = false -> fs_get (loc n) f = None ->
+    fst (load_at valid f (loc n)) <> ROk.
   Proof.
-    intros f n b OK G. destruct (name_ok_parts n OK) as (S & (r & C) & CR & _ & _).
-    unfold find_dag. rewrite S, C. simpl.
-    assert (M : fs_mem (loc n) f = true) by (apply fs_mem_true; congruence). rewrite M.
-    unfold load_at. rewrite CR, G. now destruct (valid b).
+    intros f n S G. destruct (loc_facts dir n S) as (C & _ & _).
+    unfold load_at. rewrite C, G. simpl. discriminate.
   Qed.
 
-  Lemma store_rename_none : forall f old new, fs_get (loc old) f = None -> fst (store_rename dir f old new) <> ROk.
+  Lemma hist_rename_locs : forall h old new, has_slash old = false -> has_slash new = false ->
+    hist_rename h (loc old) (loc new) = Some (h_rename (loc old) (loc new) h).
   Proof.
-    intros. unfold store_rename. destruct (negb (String.eqb (loc old) (loc new)) && fs_mem (loc new) f); simpl; [discriminate|].
-    rewrite H. simpl. discriminate.
+    intros h old new S1 S2. destruct (loc_facts dir old S1) as (_ & A1 & B1). destruct (loc_facts dir new S2) as (_ & A2 & B2).
+    unfold hist_rename. rewrite A1, A2, (B1 dir_abs), (B2 dir_abs). reflexivity.
   Qed.
 
-  (* what an accepted client rename is, for names on which the three name -> path rules agree *)
+  (* what an accepted client rename is - for all ids that are single path elements *)
   Lemma rename_ok_char : forall w old new,
-    name_okb dir old = true -> name_okb dir new = true ->
+    has_slash old = false -> has_slash new = false ->
     step_res w (ORename old new) = ROk ->
     exists b d, fs_get (loc old) (w_defs w) = Some b /\ valid b = true /\
                 store_rename dir (w_defs w) old new = (ROk, d) /\
@@ -449,44 +557,38 @@ Section Proofs.
   Proof.
     intros w old new O1 O2. unfold Model.step_res, Model.step_w. simpl.
     destruct (fs_get (loc old) (w_defs w)) as [b|] eqn:G.
-    - rewrite (find_dag_present _ _ _ O1 G).
+    - rewrite (load_at_present _ _ _ O1 G).
       destruct (valid b) eqn:V; simpl; [|discriminate].
       destruct (store_rename dir (w_defs w) old new) as [e d] eqn:S.
       destruct e; simpl; try discriminate.
       destruct (store_rename_get _ _ _ _ S) as (b' & G' & GN & _).
       assert (b' = b) by congruence. subst b'.
-      rewrite (find_dag_present _ _ _ O2 GN). rewrite V.
-      destruct (name_ok_parts old O1) as (_ & _ & _ & A1 & B1).
-      destruct (name_ok_parts new O2) as (_ & _ & _ & A2 & B2).
-      unfold hist_rename. rewrite A1, A2, B1, B2. simpl. intros _. exists b, d. auto.
-    - pose proof (store_rename_none (w_defs w) old new G) as S.
-      destruct (find_dag valid dir (w_defs w) old) as [[] ol]; simpl; try discriminate.
-      destruct (store_rename dir (w_defs w) old new) as [[] d]; simpl in *; try discriminate. congruence.
+      rewrite (load_at_present _ _ _ O2 GN). rewrite V.
+      rewrite (hist_rename_locs _ _ _ O1 O2). simpl. intros _. exists b, d. auto.
+    - pose proof (load_at_absent _ _ O1 G) as L.
+      destruct (load_at valid (w_defs w) (loc old)) as [[] ol]; simpl in *; try discriminate. congruence.
   Qed.
 
-  (* a client rename that fails changes nothing - for names on which the path rules agree (refuted otherwise:
-     rename_foreign_extension_refuted) *)
+  (* a client rename that fails changes nothing (full statement since fe0ec16) *)
   Theorem rename_failed_unchanged : forall w old new,
-    name_okb dir old = true -> name_okb dir new = true ->
+    has_slash old = false -> has_slash new = false ->
     step_res w (ORename old new) <> ROk -> step_w w (ORename old new) = w.
   Proof.
     intros w old new O1 O2. unfold Model.step_res, Model.step_w. simpl.
-    destruct (find_dag valid dir (w_defs w) old) as [r0 ol] eqn:F.
+    destruct (load_at valid (w_defs w) (loc old)) as [r0 ol] eqn:F.
     destruct r0; simpl; auto.
     destruct (store_rename dir (w_defs w) old new) as [e d] eqn:S.
     destruct e; simpl; auto.
     destruct (store_rename_get _ _ _ _ S) as (b & G & GN & _).
-    rewrite (find_dag_present _ _ _ O1 G) in F.
+    rewrite (load_at_present _ _ _ O1 G) in F.
     destruct (valid b) eqn:V; [|discriminate]. injection F as <-.
-    rewrite (find_dag_present _ _ _ O2 GN). rewrite V.
-    destruct (name_ok_parts old O1) as (_ & _ & _ & A1 & B1).
-    destruct (name_ok_parts new O2) as (_ & _ & _ & A2 & B2).
-    unfold hist_rename. rewrite A1, A2, B1, B2. simpl. congruence.
+    rewrite (load_at_present _ _ _ O2 GN). rewrite V.
+    rewrite (hist_rename_locs _ _ _ O1 O2). simpl. congruence.
   Qed.
 
-  (* C18_rename_carries *)
+  (* C18_rename_carries (full statement since fe0ec16: every id that is a single path element) *)
   Theorem rename_carries : forall w old new,
-    name_okb dir old = true -> name_okb dir new = true ->
+    has_slash old = false -> has_slash new = false ->
     step_res w (ORename old new) = ROk ->
     let w' := step_w w (ORename old new) in
     fs_get (loc new) (w_defs w') = fs_get (loc old) (w_defs w) /\
@@ -505,9 +607,7 @@ Section Proofs.
     destruct (rename_ok_char w old new O1 O2 R) as (b & d & G & V & S & W). rewrite W. simpl.
     destruct (store_rename_get _ _ _ _ S) as (b' & G' & GN & GO & GE & OT).
     assert (b' = b) by congruence. subst b'.
-    destruct (name_ok_parts old O1) as (_ & _ & C1 & _ & _).
-    destruct (name_ok_parts new O2) as (_ & _ & C2 & _ & _).
-    unfold dag_loc. rewrite C1, C2.
+    rewrite (dag_loc_is_loc dir old O1), (dag_loc_is_loc dir new O2).
     repeat split; try congruence; auto.
     - now apply GO.
     - now apply GO.
@@ -542,19 +642,17 @@ Section Proofs.
       + intros. now apply h_get_set_neq.
   Qed.
 
-  (* ... in terms of DAGs: deleting DAG n (as the API does, with the location of the loaded DAG) leaves the
-     definition and the history of every other DAG m as they were - for names on which the path rules agree *)
+  (* ... in terms of DAGs (full statement since fe0ec16): deleting DAG n (as the API does, with the location of
+     the loaded DAG) leaves the definition and the history of every other DAG m as they were *)
   Theorem delete_other_dag : forall w n m,
-    name_okb dir n = true -> name_okb dir m = true -> loc m <> loc n ->
+    has_slash n = false -> has_slash m = false -> loc m <> loc n ->
     let w' := step_w w (ODelete n (dag_loc dir n)) in
     fs_get (loc m) (w_defs w') = fs_get (loc m) (w_defs w) /\
     h_get (dag_loc dir m) (w_hist w') = h_get (dag_loc dir m) (w_hist w).
   Proof.
     intros w n m O1 O2 N w'. subst w'.
     destruct (delete_local w n (dag_loc dir n)) as (_ & _ & _ & D & H & _).
-    destruct (name_ok_parts n O1) as (_ & _ & C1 & _ & _).
-    destruct (name_ok_parts m O2) as (_ & _ & C2 & _ & _).
-    split; [now apply D|]. apply H. unfold dag_loc. congruence.
+    split; [now apply D|]. apply H. rewrite (dag_loc_is_loc dir n O1), (dag_loc_is_loc dir m O2). auto.
   Qed.
 
   (* ---- invariant over every sequence of client operations ---- *)
@@ -586,11 +684,11 @@ Section Proofs.
     - destruct (valid spec) eqn:V; simpl; [|eauto].
       destruct (fs_mem (loc name) (w_defs w)); simpl; [|eauto].
       intros G. apply fs_get_set_inv in G. destruct G as [[_ ->]|G]; eauto.
-    - destruct (find_dag valid dir (w_defs w) old) as [[] ol]; simpl; eauto.
+    - destruct (load_at valid (w_defs w) (loc old)) as [[] ol]; simpl; eauto.
       destruct (store_rename dir (w_defs w) old new) as [e d] eqn:S.
       pose proof (store_rename_valid _ _ _ _ _ IH S) as VD.
       destruct e; simpl; eauto.
-      destruct (find_dag valid dir d new) as [[] nl]; simpl; eauto.
+      destruct (load_at valid d (loc new)) as [[] nl]; simpl; eauto.
       destruct (hist_rename (w_hist w) ol nl); simpl; eauto.
     - destruct (store_rename dir (w_defs w) old new) as [e d] eqn:S.
       pose proof (store_rename_valid _ _ _ _ _ IH S) as VD.
@@ -648,39 +746,30 @@ Example ex_save_atomic :
   = ["a.yaml"].
 Proof. vm_compute. repeat split. Qed.
 
-(* delete_other_dag without the premise on names: deleting a.b (as the API does) erases the history of the DAG
-   stored as a.b.yaml, whose definition file is a different one. *)
-Theorem delete_other_dag_refuted :
-  exists valid meta dir w n m,
-    file_loc dir m <> file_loc dir n /\ name_okb dir n = false /\
-    h_get (dag_loc dir m) (w_hist w) <> [] /\
-    h_get (dag_loc dir m) (w_hist (step_w valid meta dir w (ODelete n (dag_loc dir n)))) = [].
-Proof.
-  exists all_valid, all_valid, "/d",
-    (mkW [("/d/a.b.yaml", "t")] [("/d/a.b.yaml", [mkRun 100 [mkStatus "r" 4 []]])] []), "a.b", "a.b.yaml".
-  vm_compute. repeat split; discriminate.
-Qed.
+(* the inputs that refuted delete_other_dag / rename for names with a foreign extension before fe0ec16 (F18c):
+   a.b and a.b.yaml now name the SAME definition file, deleting a.b removes that DAG and its history and
+   leaves the neighbour alone ... *)
+Definition w_dotted : world :=
+  mkW [("/d/a.b.yaml", "t"); ("/d/a.yaml", "u")]
+      [("/d/a.b.yaml", [mkRun 100 [mkStatus "r" 4 []]]); ("/d/a.yaml", [mkRun 200 [mkStatus "q" 4 []]])] [].
 
-(* a rename to a name with a foreign extension reports an error AND moves the file to a path that is neither
-   listed nor loadable (F18c) *)
-Theorem rename_foreign_extension_refuted :
-  exists valid meta dir w old new,
-    name_okb dir new = false /\
-    step_res valid meta dir w (ORename old new) <> ROk /\
-    fs_get (file_loc dir old) (w_defs (step_w valid meta dir w (ORename old new))) = None /\
-    step valid meta dir (step_w valid meta dir w (ORename old new)) OList = (step_w valid meta dir w (ORename old new), ROk, []).
-Proof.
-  exists all_valid, all_valid, "/d", (mkW [("/d/a.yaml", "t")] [] []), "a", "v1.2".
-  vm_compute. repeat split; discriminate.
-Qed.
+Example ex_delete_foreign_extension :
+  file_loc "/d" "a.b" = "/d/a.b.yaml" /\ file_loc "/d" "a.b.yaml" = "/d/a.b.yaml" /\ dag_loc "/d" "a.b" = "/d/a.b.yaml" /\
+  step all_valid all_valid "/d" w_dotted (ODelete "a.b" (dag_loc "/d" "a.b")) =
+    (mkW [("/d/a.yaml", "u")] [("/d/a.b.yaml", []); ("/d/a.yaml", [mkRun 200 [mkStatus "q" 4 []]])] [], ROk, []).
+Proof. vm_compute. repeat split. Qed.
+
+(* ... and a rename to v1.2 is accepted: the definition and its history are at v1.2.yaml, and it is listed *)
+Example ex_rename_foreign_extension :
+  step all_valid all_valid "/d" (mkW [("/d/a.yaml", "t")] [("/d/a.yaml", [mkRun 100 [mkStatus "r" 4 []]])] []) (ORename "a" "v1.2") =
+    (mkW [("/d/v1.2.yaml", "t")] [("/d/a.yaml", []); ("/d/v1.2.yaml", [mkRun 100 [mkStatus "r" 4 []]])] [], ROk, []) /\
+  snd (step all_valid all_valid "/d" (mkW [("/d/v1.2.yaml", "t")] [] []) OList) = ["v1.2.yaml"] /\
+  file_loc "/d" "a.yml" = "/d/a.yaml" /\ file_loc "/d" "a b" = "/d/a b.yaml".
+Proof. vm_compute. repeat split. Qed.
 
 (* ------------------------------------------------------------------------------------------- *)
 (* examples: the hypotheses are satisfiable by concrete non-trivial states                      *)
 (* ------------------------------------------------------------------------------------------- *)
-
-Example ex_names_ok : name_okb "/d" "a" = true /\ name_okb "/d" "a b" = true /\ name_okb "/d" "ab" = true /\
-                      name_okb "/d" "a.yaml" = true /\ name_okb "/d" "a.b" = false /\ name_okb "/d" "a.yml" = false.
-Proof. vm_compute. repeat split. Qed.
 
 Example ex_create_fresh : fs_get (file_loc "/d" "a") (w_defs w_two) <> None /\
   step all_valid all_valid "/d" w_two (OCreate "a" "x") = (w_two, RExists, []).
